@@ -86,7 +86,12 @@ TYPES = {
            {"B": 3, "A": None}, {}, "Z", {"Z": 1}, {"D": [1.5, [1]]}, {"C": {"0": 1}}, ["A"], 0],
     "nest": [{"e": "A", "l": [{"x": 1}], "m": {"k": None, "j": {"B": 2}}, "t": [2**64 - 1, -2**63], "w": 9},
              {"e": {"C": [1, False]}, "l": [], "m": {}, "t": [1, 2, 3], "w": 9}],
-    "value": [None, 1, 2**64 - 1, -2**63, 1.5, "s", [1, [2]], {"a": {"b": None}}],
+    "value": [None, 1, 2**64 - 1, -2**63, 1.5, "s", [1, [2]], {"a": {"b": None}}, [], {}, [[]], {"a": []}, [{}], [[], [[]], {"k": [[]]}], [None], {"": None}],
+    "en2": [{"At": None}, {"At": 3}, {"At": "x"}, "At", {"Mark": None}, {"Mark": []}, "Mark", {"U": None}, {"U": []}, {"W": 7}, {"W": None}, {"V": []}, {"V": None}, {"V": [1, 2]},
+            {"N": None}, {"N": True}, {"E": "A"}, {"E": {"B": 1}}, {"E": None}, {"S": {}}, {"S": None}, {"S": []}, "S", {"T": []}, {"T": None}, "T", {"At": [None]}, {"At": None, "W": 1}, None],
+    "opt_en": [None, "A", {"B": 1}, {"A": None}, [None]],
+    "vec_en2": [[], [{"At": None}, {"Mark": None}, {"N": None}], [{"V": []}, "At"]],
+    "map_en2": [{}, {"a": {"At": None}, "b": {"E": "A"}}, {"a": None}],
 }
 
 
